@@ -693,6 +693,7 @@ func runC17(c *eng.Ctx) {
 		}
 		c.R.End(idx, eng.Hash("c17-rand", seqString(ops)), m)
 	}
+	runC17Initializers(c, func() (int, bool) { i := caseIdx; caseIdx++; return i, c.Mine(i) })
 	for k, v := range stats {
 		c.R.Count(k, v)
 	}
